@@ -65,7 +65,18 @@ func ruleNibbles(c *Ctx, r *Report, rule string) {
 		})
 		for _, call := range sites {
 			cs := struct{ Call *ast.CallExpr }{call}
-			be, isB := c.stripConv(cs.Call.Args[0]).(*ast.BinaryExpr)
+			arg := c.stripConv(cs.Call.Args[0])
+			// the packing in a one-line helper: pack(target, selector)
+			if hc, isCall := arg.(*ast.CallExpr); isCall {
+				if fn, isFn := c.callee(hc).(*types.Func); isFn && fn.Pkg() != nil && fn.Pkg().Path() == bclPath {
+					if hfd := c.funcDecls[fn]; hfd != nil && hfd.Body != nil && len(hfd.Body.List) == 1 {
+						if rs, isRet := hfd.Body.List[0].(*ast.ReturnStmt); isRet && len(rs.Results) == 1 {
+							arg = c.stripConv(rs.Results[0])
+						}
+					}
+				}
+			}
+			be, isB := arg.(*ast.BinaryExpr)
 			if !isB || be.Op != token.OR {
 				continue
 			}
@@ -899,8 +910,13 @@ func checkC04(c *Ctx, r *Report) {
 		return
 	}
 	bp, why := c.bindParts(vm)
-	if why != "" {
-		r.undecided("bind-arm", "BIND", "the BIND arm is not in the shape the checker understands: "+why, "")
+	// the arm partially evaluated per option byte and candidate count: decides on its own when it can follow the
+	// arm; when it cannot, the syntactic rules below decide (and the reverse)
+	usable, whyModel := ruleBindTable(c, r, "bind-table", vm, spec, true)
+	if usable {
+		// decided by the model; the syntactic rules are the fallback for an arm the model cannot follow
+	} else if why != "" {
+		r.undecided("bind-arm", "BIND", "the BIND arm is not in the shape the checker understands: "+why+"; "+whyModel, "")
 	} else {
 		ruleBindFilter(c, r, "filter", bp)
 		ruleCountGuards(c, r, "count-guards", bp)
@@ -1098,7 +1114,6 @@ func ruleBindEmission(c *Ctx, r *Report, rule string) {
 	// nobody but the emission primitives writes code bytes (so no statement can erase or rewrite an earlier BIND)
 	c.ownership(r, rule, "Prog", "code", progOwners["code"], true)
 }
-
 
 // asHopScan: for off := 0; [off < len(src)]; { i := strings.IndexByte(src[off:], C); if i < 0 { break }; <action>; off += i + 1 }
 func (c *Ctx) asHopScan(s *ast.ForStmt, off types.Object, isSource func(ast.Expr) bool) *filterLoop {
